@@ -77,6 +77,26 @@ def encryptAgreedKey (P : Prims) (E : Env) (a : JweAlgRow) (enc : JweEncRow) (o 
 
 def b64Str (b : Bytes) : JVal := .str (asciiStr (b64e b))
 
+/-- PBES2 salt input: the caller's `p2s` header, or a fresh draw that is then recorded in the header. -/
+def pbes2Salt (P : Prims) (saltLen : Nat) (o : EObj) (r : ERecipient) (d : Draws) :
+    Except Err (Bytes × EObj × ERecipient × Draws) :=
+  match (eHeaders o r).get? "p2s" with
+  | none => do
+    let s ← P.tokenBytes d.tokens.length saltLen
+    let (o1, r1) := addHeader o r "p2s" (b64Str s)
+    pure (s, o1, r1, d.next saltLen)
+  | some (.str s) => do pure (← b64d (strBytes s), o, r, d)
+  | some _ => throw .typeError
+
+/-- PBES2 iteration count: the caller's `p2c` header (looked up before the salt was added), or the default,
+which is then recorded in the header. -/
+def pbes2Count (defaultP2c : Nat) (headers : Dict) (o1 : EObj) (r1 : ERecipient) : JVal × EObj × ERecipient :=
+  match headers.get? "p2c" with
+  | none =>
+    let (o2, r2) := addHeader o1 r1 "p2c" (.int defaultP2c)
+    (.int defaultP2c, o2, r2)
+  | some v => (v, o1, r1)
+
 /-- `alg.encrypt_cek(cek, recipient)` for key encryption / key wrapping algorithms. -/
 def encryptCek (P : Prims) (E : Env) (a : JweAlgRow) (gcmIvLen saltLen defaultP2c : Nat) (cek : Bytes) (o : EObj)
     (r : ERecipient) (d : Draws) : Except Err (EObj × ERecipient × Draws) :=
@@ -103,23 +123,11 @@ def encryptCek (P : Prims) (E : Env) (a : JweAlgRow) (gcmIvLen saltLen defaultP2
     let (o2, r2) := addHeader o1 r1 "tag" (b64Str tag)
     pure (o2, { r2 with encryptedKey := some ek }, d.next gcmIvLen)
   | "PBES2HSAlgModel" => do
-    let headers := eHeaders o r
-    let (p2s, o1, r1, d1) ← match headers.get? "p2s" with
-      | none => do
-        let s ← P.tokenBytes d.tokens.length saltLen
-        let (o1, r1) := addHeader o r "p2s" (b64Str s)
-        pure (s, o1, r1, d.next saltLen)
-      | some (.str s) => do pure (← b64d (strBytes s), o, r, d)
-      | some _ => throw .typeError
-    let (p2cv, o2, r2) := match headers.get? "p2c" with
-      | none => let (o2, r2) := addHeader o1 r1 "p2c" (.int defaultP2c); (JVal.int defaultP2c, o2, r2)
-      | some v => (v, o1, r1)
+    let (p2s, o1, r1, d1) ← pbes2Salt P saltLen o r d
+    let (p2cv, o2, r2) := pbes2Count defaultP2c (eHeaders o r) o1 r1
     a.checkKeyType r.key
     r.key.checkKeyOp E.ops "deriveKey"
-    let p2c ← match p2cv with
-      | .int i => if i < 1 || i ≥ 2147483648 then .error .valueError else pure i.toNat
-      | _ => .error .typeError
-    let kek ← P.pbkdf2 a.hash r.key.raw (strBytes a.name ++ [0] ++ p2s) p2c ((a.keySize.getD 0) / 8)
+    let kek ← pbes2Kek P a r.key.raw p2s p2cv
     checkOpKeySize a.keySize kek
     let ek ← P.aesKeyWrap kek cek
     pure (o2, { r2 with encryptedKey := some ek }, d1)
